@@ -51,7 +51,7 @@ let show_cls (c : cls) : string =
 
 (* project description as a flat token list *)
 let run_project (toks : string list) : string =
-  let srcdir = ref [] and sufs = ref [] and nit = ref [] and schemes = ref [] in
+  let srcdir = ref [] and sufs = ref [] and nit = ref [] and schemes = ref [] and dirhtml = ref false in
   let files = ref [] and labels = ref [] in
   let docs = ref [] in           (* finished docs, reversed *)
   let cur = ref None in          (* (name, dir, title, slugs rev, locals rev) *)
@@ -65,11 +65,11 @@ let run_project (toks : string list) : string =
   let sel = ref None in
   let project () =
     { p_srcdir = !srcdir; p_suffixes = !sufs; p_docs = List.rev !docs; p_labels = List.rev !labels;
-      p_files = List.rev !files; p_nitpick = !nit; p_url_schemes = !schemes } in
+      p_files = List.rev !files; p_nitpick = !nit; p_url_schemes = !schemes; p_dirhtml = !dirhtml } in
   let rec go = function
-    | "S" :: a :: b :: c :: d :: r ->
+    | "S" :: a :: b :: c :: d :: e :: r ->
         srcdir := strs_of_field a; sufs := strs_of_field b; nit := strs_of_field c;
-        schemes := strs_of_field d; go r
+        schemes := strs_of_field d; dirhtml := s2b e; go r
     | "F" :: p :: r -> files := strs_of_field p :: !files; go r
     | "D" :: n :: d :: t :: r ->
         close_doc (); cur := Some (str_of_field n, strs_of_field d, str_of_field t, [], []); go r
@@ -90,10 +90,11 @@ let run_project (toks : string list) : string =
         let name = str_of_field n in
         sel := (try Some (List.find (fun d -> d.d_name = name) !docs) with Not_found -> None);
         go r
-    | "L" :: dest :: auto :: ch :: r ->
+    | "L" :: dest :: auto :: ch :: ipre :: idir :: r ->
         (match !sel with
          | Some d ->
-             let l = { l_dest = str_of_field dest; l_auto = s2b auto; l_children = s2b ch } in
+             let inc = (match ostr_of_field ipre with None -> None | Some pre -> Some (pre, strs_of_field idir)) in
+             let l = { l_dest = str_of_field dest; l_auto = s2b auto; l_children = s2b ch; l_include = inc } in
              let p = project () in
              out := (show_cls (render_link p d l) ^ "|" ^ show_outcome (run_link_plain p d l)) :: !out
          | None -> failwith "no current doc"); go r
@@ -116,6 +117,9 @@ let handle (fs : string list) : string =
   | ["path2doc"; sufs; s; d; f] ->
       field_of_ostr (path2doc (strs_of_field sufs) (relfn2path (strs_of_field s) (strs_of_field d) (str_of_field f)))
   | ["parts"; p] -> show_root (path_root (str_of_field p)) ^ ":" ^ field_of_strs (path_parts (str_of_field p))
+  | ["relpath"; p; st] -> field_of_str (relpath (str_of_field p) (str_of_field st))
+  | ["lower"; s] -> field_of_str (lower (str_of_field s))
+  | ["target_uri"; b; d] -> field_of_str (target_uri (s2b b) (str_of_field d))
   | ["scheme"; s] -> field_of_ostr (scheme_of (str_of_field s))
   | ["split"; c; s] -> field_of_strs (split_on (n_of_int (int_of_string c)) (str_of_field s))
   | "run" :: toks -> run_project toks
